@@ -210,10 +210,41 @@ def run_requests(gen):
     return n, bad
 
 
+def run_fault_history(gen):
+    """One client, six idempotent commands one after the other, each meeting exactly one write failure: every one
+    of them is re-sent.  (The retry budget belongs to the message, not to the process.)"""
+    bad = []
+    w = world(gen)
+    L = w.loop
+    z = sorted((z for a in w.at.air_conditioners for z in a.zones), key=lambda z: z.zone_id)[0]
+    n = 0
+    for i in range(6):
+        n += 1
+        w.net.live()[-1].fail_after = 0
+        n0 = len(w.console.requests)
+        pct = 10 + 5 * i
+        rec = w.call(lambda pct=pct: z.set_damper_percentage(pct), f"damper {pct}")
+        L.run_until(L.time() + 5.0)
+        got = []
+        for r in w.console.requests[n0:]:
+            if r[2].startswith("req-") or r[3] is None:
+                continue
+            kind, reading = cc.read_command(gen, r[3])
+            if kind == "zone-control" and reading["setting"] == "percent":
+                got.append(reading["value"])
+        if rec["status"] != "returned" or got != [pct]:
+            bad.append((f"at{gen}:api:fault-history", f"at{gen}: command #{i + 1} of a session (set_damper_percentage({pct})) met one write "
+                        f"failure; call {rec['status']}, console received damper values {got} afterwards"))
+            break
+    return n, bad
+
+
 def job(args):
     kind, gen, idx = args
     if kind == "cmd":
         return run_command((gen, idx))
+    if kind == "hist":
+        return run_fault_history(gen)
     return run_requests(gen)
 
 
@@ -223,6 +254,7 @@ def run_part(chk, tier):
         for i in range(len(commands(gen))):
             jobs.append(("cmd", gen, i))
         jobs.append(("req", gen, 0))
+        jobs.append(("hist", gen, 0))
     res = explorer.pool().map(job, jobs, chunksize=2)
     total = 0
     for j, (n, bad) in zip(jobs, res):
